@@ -255,7 +255,7 @@ int main(int argc, char **argv) {
     bool thorough = a.tier == "thorough";
     long ngen = (thorough ? 6000 : 600) * a.scale;
     long nlay = (thorough ? 2500 : 500) * a.scale;
-    long nrep = (thorough ? 1500 : 250) * a.scale;
+    long nrep = (thorough ? 800 : 250) * a.scale;
     if (a.n >= 0) { ngen = a.n; nlay = a.n; nrep = a.n; }
     long k = 0;
     for (long i = 0; i < ngen; ++i, ++k) if (a.want(k)) genCase(k, a);
